@@ -1,19 +1,189 @@
-/- T2N.Spec.SpellNl — STUB (to be replaced by the specification of nl spellings) -/
+/-
+  T2N.Spec.SpellNl — Dutch spellings: cardinals below 10^12 with their accepted variants, ordinals,
+  decimals, digit dictation. Written from Dutch orthography (Taalunie: numbers up to a thousand are one
+  word, a space follows `duizend`, `miljoen` / `miljard` are separate words, tens-units are compounded
+  with `en` / `ën`) and from the repository's module doc / tests (src/lang/nl/mod.rs: the interpreter
+  "accepts splitted words, that is `negen en zeventig` is treated like `negenenzeventig`").
+
+  Standard spelling (`v = fun _ => 0`):
+      driehonderdzevenenveertig miljard zeshonderdvijfentwintig miljoen
+      zevenhonderdachtentwintigduizend tweehonderdeenentwintig
+
+  Variant axes; `g` is the group index (0 = units, 1 = duizend, 2 = miljoen, 3 = miljard), every choice
+  point is independent of the others:
+    * (cp g 0)  scale word attached to / separated from its multiplier, toggled from the standard:
+                g = 1: `vijfenzeventigduizend` (std) | `vijfenzeventig duizend`
+                g ≥ 2: `vijfentwintig miljoen` (std) | `vijfentwintigmiljoen`
+                The scale word is only ever attached to a multiplier written as ONE word: a split
+                multiplier forces a separate scale word (`vijf honderd vier duizend`; never the partial
+                split `vijf honderd vierduizend`, which reads 500 4000 and is rejected by the repository).
+    * (cp g 1)  split level inside the group (pick of 4, each level includes the previous cuts):
+                0 one word `driehonderdvijfenveertig` | 1 space after `honderd` `driehonderd vijfenveertig`
+                | 2 spaces around `honderd` `drie honderd vijfenveertig`
+                | 3 also around `en` `drie honderd vijf en veertig`
+    * (cp 1 2)  units group attached after `duizend`: `tweeduizend driehonderdvijf` (std) |
+                `tweeduizenddriehonderdvijf`; only when the `duizend` word and the units group are one
+                word each (no lower-level cut without the higher one).
+    * (cp g 3)  `een` | `één` for the unit 1 of the group (alone, in `eenentwintig`, `honderdeen`,
+                `een miljoen`).
+    * (cp g 4)  `drieën…` | `drieen…` (trema dropped) in an attached tens-unit compound of the group.
+    * (cp 2 5)  ordinal of 10^6 only: `miljoenste` (std) | `een miljoenste` (cardinal kept whole).
+  Fixed (no choice): no `een` before `honderd` / `duizend` (`eenhonderd`, `eenduizend` are rejected by the
+  repository — excluded); `een miljoen`, `een miljard` always with `een`; scale words have no plural
+  (`twee miljoen`); a space always follows `miljoen` / `miljard`.
+
+  Removed after validation against the library (non-standard and rejected):
+    * `tweeentwintig` (trema dropped after `twee`): not orthographic (ASCII fallback), the library's word
+      splitter reads `…een…` in it and answers NaN. The trema-less form is kept for `drie` only, which is
+      what the repository tests (`drieenzeventig`).
+  Not covered (outside the axes of the property statement): counting in hundreds (`negentienhonderd
+  negentig`, `vijfenzeventighonderd`), `en` after `honderd` / `duizend` (`honderd en een`).
+
+  Ordinals: one form (index 0), marker `e`. Only the last element is ordinal: `-de` below 20 (`eerste`,
+  `derde`, `achtste` irregular), `-ste` from 20 (`twintigste`, `honderdste`, `duizendste`, `miljoenste`).
+  Fractions: every leading zero is `nul`, the remaining digits are read as one cardinal (its choice points
+  are those of the integer part shifted by 64, so that both parts vary independently).
+-/
 import T2N.Spec.Basic
+
+namespace T2N.Spec.Nl
+
+def unitWords : List Word := [w!"nul", w!"een", w!"twee", w!"drie", w!"vier", w!"vijf", w!"zes", w!"zeven",
+  w!"acht", w!"negen", w!"tien", w!"elf", w!"twaalf", w!"dertien", w!"veertien", w!"vijftien", w!"zestien",
+  w!"zeventien", w!"achttien", w!"negentien"]
+
+def tensWords : List Word := [[], [], w!"twintig", w!"dertig", w!"veertig", w!"vijftig", w!"zestig",
+  w!"zeventig", w!"tachtig", w!"negentig"]
+
+def tensWord (t : Nat) : Word := tensWords.getD t []
+
+/-- 1..19; the unit 1 is `een` | `één` -/
+def unitWord (v : Var) (g n : Nat) : Word :=
+  if n == 1 && flag v (cp g 3) then w!"één" else unitWords.getD n []
+
+/-- the link of an attached tens-unit compound: `ën` after `twee` / `drie` (the trema may be dropped
+after `drie`), `en` otherwise -/
+def linkWord (v : Var) (g u : Nat) : Word :=
+  if u == 2 then w!"ën"
+  else if u == 3 then (if flag v (cp g 4) then w!"en" else w!"ën")
+  else w!"en"
+
+/-- concatenation of the words into one word (nothing stays nothing) -/
+def fuse (ws : List Word) : List Word :=
+  if ws.isEmpty then [] else [ws.foldr (· ++ ·) []]
+
+/-- 1..99; `splitEn`: written in three words around `en` -/
+def below100 (v : Var) (g n : Nat) (splitEn : Bool) : List Word :=
+  if n < 20 then [unitWord v g n]
+  else
+    let t := n / 10
+    let u := n % 10
+    if u == 0 then [tensWord t]
+    else if splitEn then [unitWord v g u, w!"en", tensWord t]
+    else [unitWord v g u ++ linkWord v g u ++ tensWord t]
+
+/-- 1..999 at the split level chosen for the group -/
+def group (v : Var) (g n : Nat) : List Word :=
+  let lvl := pick v (cp g 1) 4
+  let h := n / 100
+  let r := n % 100
+  let hs : List Word :=
+    if h == 0 then []
+    else if h == 1 then [w!"honderd"]
+    else if lvl ≥ 2 then [unitWord v g h, w!"honderd"]
+    else [unitWord v g h ++ w!"honderd"]
+  let rs : List Word := if r == 0 then [] else below100 v g r (lvl == 3)
+  if lvl == 0 then fuse (hs ++ rs) else hs ++ rs
+
+def scaleWord (g : Nat) : Word :=
+  match g with
+  | 1 => w!"duizend" | 2 => w!"miljoen" | _ => w!"miljard"
+
+/-- group `g ≥ 1` with its scale word -/
+def scaled (v : Var) (g n : Nat) : List Word :=
+  if n == 0 then []
+  else if g == 1 && n == 1 then [scaleWord g]          -- `duizend`, never `eenduizend`
+  else
+    let ws := group v g n
+    -- standard: attached for `duizend`, separate for `miljoen` / `miljard`
+    let attach := ws.length == 1 && ((g == 1) != flag v (cp g 0))
+    if attach then fuse (ws ++ [scaleWord g]) else ws ++ [scaleWord g]
+
+/-- cardinal, `n < 10^12` -/
+def cardinal (v : Var) (n : Nat) : List Word :=
+  if n == 0 then [w!"nul"]
+  else
+    let g3 := n / 1000000000 % 1000
+    let g2 := n / 1000000 % 1000
+    let g1 := n / 1000 % 1000
+    let g0 := n % 1000
+    let hi := scaled v 3 g3 ++ scaled v 2 g2
+    let p1 := scaled v 1 g1
+    let p0 : List Word := if g0 == 0 then [] else group v 0 g0
+    if p1.length == 1 && p0.length == 1 && flag v (cp 1 2) then hi ++ fuse (p1 ++ p0)
+    else hi ++ p1 ++ p0
+
+/-! ### ordinals -/
+
+def ordUnitWords : List Word := [[], w!"eerste", w!"tweede", w!"derde", w!"vierde", w!"vijfde", w!"zesde",
+  w!"zevende", w!"achtste", w!"negende", w!"tiende", w!"elfde", w!"twaalfde", w!"dertiende", w!"veertiende",
+  w!"vijftiende", w!"zestiende", w!"zeventiende", w!"achttiende", w!"negentiende"]
+
+/-- ordinal `1 ≤ n ≤ 10^6`: the cardinal with its last element made ordinal. When `n % 100` is in
+1..19 the last word ends with that unit word, which is replaced by its ordinal form; otherwise the
+last element is a tens word, `honderd`, `duizend` or `miljoen`, which takes `-ste`. -/
+def ordinal (v : Var) (n : Nat) : List Word :=
+  let ws := if n == 1000000 && !flag v (cp 2 5) then [w!"miljoen"] else cardinal v n
+  let r := n % 100
+  match ws.reverse with
+  | [] => []
+  | last :: rest =>
+    let newLast : Word :=
+      if r != 0 && r < 20 then
+        last.take (last.length - (unitWord v 0 r).length) ++ ordUnitWords.getD r []
+      else last ++ w!"ste"
+    (newLast :: rest).reverse
+
+def ordinalMarker : Word := w!"e"
+
+/-! ### decimals and dictation -/
+
+def sepWord : Word := w!"komma"
+def decMark : Char := ','
+
+/-- fraction digits: every leading zero is spoken `nul`, the remaining digits (at most 12) are read as
+one cardinal number -/
+def fraction (v : Var) (ds : List Nat) : List Word :=
+  let zs := ds.takeWhile (· == 0)
+  let rest := ds.dropWhile (· == 0)
+  zs.map (fun _ => w!"nul") ++
+    (if rest.isEmpty then [] else cardinal (fun i => v (i + 64)) (rest.foldl (fun a d => 10 * a + d) 0))
+
+def zeroWord : Word := w!"nul"
+
+def digitWord (d : Nat) : Word := unitWords.getD d []
+
+/-- the conjunction that may stand between two numbers -/
+def conj : Word := w!"en"
+
+end T2N.Spec.Nl
 
 namespace T2N.Spec.Nl
 
 def speller : Speller where
   code := "nl"
-  cardinal := fun _ _ => []
-  nInfl := 0
-  ordMax := 0
-  ordinal := fun _ _ _ => none
-  sepWord := []
-  decMark := ','
-  fraction := fun _ _ => []
-  zeroWord := []
-  digitWord := fun _ => []
-  conj := []
+  cardinal := cardinal
+  nInfl := 1
+  ordMax := 1000000
+  ordinal := fun v n i =>
+    if n == 0 || n > 1000000 then none
+    else if i == 0 then some (ordinal v n, ordinalMarker)
+    else none
+  sepWord := sepWord
+  decMark := decMark
+  fraction := fraction
+  zeroWord := zeroWord
+  digitWord := digitWord
+  conj := conj
 
 end T2N.Spec.Nl
